@@ -1,11 +1,83 @@
 /-
-  C02 — evaluation agrees with the definitional semantics (fragment theorem: see below).
+  C02 — evaluation agrees with the language's definitional semantics.
+
+  Fragment theorem `compile_correct` (numbers, all unary / binary operators, the ternary, `||`, `&&`): for EVERY source tree of
+  the fragment, the code the compiler emits for it, run by the VM model's dispatch loop from an empty stack, ends with exactly
+  the value — or exactly the error — that the definitional (syntax-directed) semantics `evalF` prescribes, and with the same
+  heap.  `run_compile` (DS/Proofs/FragCompile.lean) is the compositional form: from ANY frame and surrounding stack the code
+  of a sub-expression pushes its value on the untouched stack and continues behind itself — which is what "right jump offsets
+  and stack balance for every composition" means.  The compiler of the theorem is tied to roll.peg's actions by the `compile`
+  stream (instruction-by-instruction equality with the real bytecode dump); the dispatch loop to rollvm.go by the vm stream;
+  the whole language (statements, loops, functions, computed values, templates, containers, dice under min/max mode) is
+  compared with the definitional semantics over source trees (DS/Model/RefEval.lean) by the `ref` stream.
 -/
-import DS.Model.RefEval
+import DS.Proofs.FragCompile
 
 namespace DS.Props.C02
-open DS.VM DS.Ref
+open DS.VM DS.Frag
 
-theorem placeholder : True := trivial
+theorem codeAt_toArray (l : List Instr) : CodeAt l.toArray 0 l := by
+  refine ⟨by simp, ?_⟩
+  intro i hi
+  simp [hi]
+
+theorem step_halt (fuel : Nat) (g : G) (f : Frame) (hpc : f.pc < f.code.size) (hi : f.code[f.pc]! = Instr.halt)
+    (hl : g.cfg.opLimit = 0) (ht : f.top < stackSize) (h1 : 1 ≤ f.top) :
+    evalLoop (fuel + 1) g f =
+      (addOps g f.ctx 1, .ok { top := some (f.stack[f.top - 1]!), spans := solvedSpans (addOps g f.ctx 1) { f with pc := f.pc + 1 } }) := by
+  rw [evalLoop_dispatch fuel g f hpc hl ht, hi]
+  have e0 : (f.top == 0) = false := by simp; omega
+  simp only [exec, e0, Bool.false_eq_true, if_false]
+
+/-- the whole program for a fragment tree: its code followed by halt -/
+def prog (e : F) : Code := (compile e ++ [Instr.halt]).toArray
+
+/-- the initial frame of a program -/
+def frame0 (code : Code) : Frame := { ctx := 0, code := code, stack := newStack }
+
+/-- C02, fragment: compiled code computes what the definitional semantics prescribes -/
+theorem compile_correct (e : F) (g : G) (hl : g.cfg.opLimit = 0) (hd : depth e < stackSize) :
+    (match evalF g.cfg.ignoreDiv0 g.heap e with
+     | (h', .ok v) => ∃ k g' out, (∀ fuel, evalLoop (fuel + k) g (frame0 (prog e)) = (g', .ok out)) ∧ out.top = some v ∧ g'.heap = h'
+     | (h', .err m) => ∃ k g', (∀ fuel, evalLoop (fuel + k) g (frame0 (prog e)) = (g', .err m)) ∧ g'.heap = h'
+     | _ => True) := by
+  have hcode : CodeAt (frame0 (prog e)).code (frame0 (prog e)).pc (compile e ++ [Instr.halt]) := codeAt_toArray _
+  have hready : Ready g.cfg.ignoreDiv0 g (frame0 (prog e)) := ⟨hl, rfl, by simp [frame0, newStack]⟩
+  have hrun := run_compile g.cfg.ignoreDiv0 e g (frame0 (prog e)) hcode.append_left hready (by simpa [frame0] using hd)
+  cases hev : evalF g.cfg.ignoreDiv0 g.heap e with
+  | mk h' r =>
+    rw [hev] at hrun
+    cases r with
+    | ok v =>
+      obtain ⟨k, g', f', hruns, haft, hcfg, hheap⟩ := hrun
+      have hh := hcode.append_right.head
+      have hpcH : f'.pc < f'.code.size := by rw [haft.code, haft.pc]; exact hh.1
+      have hiH : f'.code[f'.pc]! = Instr.halt := by rw [haft.code, haft.pc]; exact hh.2
+      have htop : f'.top = 1 := by rw [haft.top]; simp [frame0]
+      have hst : stackSize = 1000 := rfl
+      refine ⟨1 + k, addOps g' f'.ctx 1, { top := some (f'.stack[f'.top - 1]!), spans := solvedSpans (addOps g' f'.ctx 1) { f' with pc := f'.pc + 1 } }, ?_, ?_, hheap⟩
+      · intro fuel
+        have := hruns (fuel + 1)
+        rw [Nat.add_assoc] at this
+        rw [this, step_halt fuel g' f' hpcH hiH (by rw [hcfg]; exact hl) (by omega) (by omega)]
+      · simp only
+        have : f'.top - 1 = (frame0 (prog e)).top := by rw [htop]; simp [frame0]
+        rw [this, haft.val]
+    | err m =>
+      obtain ⟨k, g', hf, hheap⟩ := hrun
+      exact ⟨k, g', hf, hheap⟩
+    | panic _ => trivial
+    | unsup _ => trivial
+    | diverge => trivial
+
+/-! ### non-vacuity and the shapes the compiler emits -/
+
+example : compile (.tern (.lit 1) (.bin .add (.lit 2) (.lit 3)) (.bin .mul (.lit 4) (.lit 5))) =
+    [.pushInt 1, .jne (some 4), .pushInt 2, .pushInt 3, .bin .add, .jmp (some 3), .pushInt 4, .pushInt 5, .bin .mul] := by
+  simp [compile]
+
+example : compile (.lor (.lit 1) (.bin .add (.lit 2) (.lit 3))) =
+    [.pushInt 1, .jeDup (some 5), .pushInt 2, .pushInt 3, .bin .add, .jeDup (some 1), .pushLast] := by
+  simp [compile]
 
 end DS.Props.C02
